@@ -620,6 +620,8 @@ class Executor:
                     s = self.m.tybytes(pt[2]); cur = pt[2]
                 else:
                     raise Unmodelled('gep into ' + cur)
+            if isinstance(sv, PtrInt):
+                raise Unmodelled('gep index is a pointer-derived integer: %r (base %r)' % (sv, p))
             if is_sym(off) or is_sym(sv):
                 off = simp(bv(off, 64) + bv(sv, 64) * s)
             else:
@@ -823,7 +825,7 @@ class Executor:
                 elif pt[0] == 'int' and pt[1] < 8 * m.tybytes(ty) and not isinstance(v, (Ptr, FuncPtr, PtrInt, float)):
                     v = mask(v, pt[1]) if not is_sym(v) else simp(z3.Extract(pt[1] - 1, 0, v))
                 elif pt[0] == 'int' and isinstance(v, Ptr):
-                    v = PtrInt(v)
+                    v = PtrInt(v) if v.reg is not None else v.off   # inttoptr constants (e.g. virtual-base offsets in vtables) are plain integers
                 elif pt[0] in ('ptr', 'func') and isinstance(v, int):
                     v = NULL if v == 0 else Ptr(None, v)
                 elif pt[0] in ('ptr', 'func') and isinstance(v, PtrInt):
@@ -1105,6 +1107,13 @@ class Executor:
             cont(r); return
         if callee.startswith('llvm.'):
             self._intrinsic(st, callee, args, cont, work, retty); return
+        if callee == '_ZNSt7__cxx1112basic_stringIcSt11char_traitsIcESaIcEE9_M_createERmm':
+            # libstdc++ basic_string::_M_create(size_type& capacity, size_type old_capacity): growth policy + allocation of capacity+1 chars
+            cap = self.concretize(st, self.load(st, args[1], 8), work); old = self.concretize(st, args[2], work)
+            if cap > old and cap < 2 * old:
+                cap = 2 * old
+            self.store(st, args[1], cap, 8)
+            cont(Ptr(st.new_region(cap + 1, 'string', 'heap'), 0)); return
         if callee in ('_Znwm', '_Znam', 'malloc', '_ZnwmSt11align_val_t', '_ZnamSt11align_val_t', '_ZnwmRKSt9nothrow_t', '_ZnamRKSt9nothrow_t'):
             n = self.concretize(st, args[0], work)
             if n > (1 << 26):
